@@ -105,6 +105,9 @@ def walk_values(it):
     return out
 
 
+BUNDLED_MODULES = ["Bitwise", "Core", "Date", "IO", "List", "Math", "OS", "Predicate", "Random", "Set", "String", "Stat", "Sys", "Type"]
+
+
 def run(ctx):
     from ckl.interpreter import Interpreter
     from ckl.values import StringInput, StringOutput
@@ -133,6 +136,24 @@ def run(ctx):
     old_home, old_cwd = os.environ.get("HOME"), os.getcwd()
     os.environ["HOME"] = home
     os.chdir(canary_dir)
+
+    # a secure interpreter is secure whatever ran in the process before it: NON-secure interpreters (legacy and not) that required every
+    # bundled module and bound file / process built-ins are created first and stay alive while the secure ones run
+    insecure = []
+    for legacy in (True, False):
+        it0 = Interpreter(False, legacy)
+        it0.setStandardOutput(StringOutput())
+        it0.setStandardInput(StringInput("x\n"))
+        for m in BUNDLED_MODULES:
+            try:
+                it0.interpret(f"require {m}", "insecure")
+            except Exception:  # noqa
+                pass
+        try:
+            it0.interpret("bind_native('file_exists'); bind_native('list_dir'); bind_native('file_input', 'fin'); def leak = file_exists", "insecure")
+        except Exception:  # noqa
+            pass
+        insecure.append(it0)
 
     def fresh(legacy):
         it = Interpreter(True, legacy)
